@@ -25,7 +25,8 @@ RULE = (
     "sketches) and hexahedral assemblies "
     "cut from a 1..3 ^3 node lattice (0-2 cells dropped, each block in one of the 24 numberings, any insertion order) "
     "get their interior points jittered; quads are cyclically renumbered, faces and point ids permuted, the plane "
-    "optionally tilted. A drawn subset of points is fixed by index, by position or both; iterations n in 1..200. The "
+    "optionally tilted. Points are fixed by a drawn sequence of 1-3 fix_indexes / fix_points calls (any mix and order, "
+    "possibly overlapping; their union must stay put); iterations n in 1..200. The "
     "library smooths a fresh build n-1 and another n times. Oracles use the harness's own topology (an edge/face is "
     "boundary iff it belongs to exactly one cell; neighbours = points joined by a cell edge). Non-trivial: >= 1 free "
     "interior point that has >= 1 fixed or boundary neighbour; distinct = distinct generated case."
@@ -130,8 +131,31 @@ def _fixing(draw, npoints: int):
     """fixed = any point ids; fixed_inner = selectors resolved to interior points (k-th interior point, modulo)"""
     fixed = draw(st.lists(st.integers(0, npoints - 1), max_size=3, unique=True))
     inner = draw(st.lists(st.integers(0, 63), max_size=2, unique=True))
-    mode = draw(st.sampled_from(["index", "position", "both", "position-array"]))
-    return {"fixed": fixed, "fixed_inner": inner, "mode": mode}
+    mode = draw(st.sampled_from(MODES))
+    # 0-2 further fixing calls after the first one (any mix of fix_indexes / fix_points, possibly overlapping)
+    more = [
+        {"fixed": draw(st.lists(st.integers(0, npoints - 1), max_size=2, unique=True)),
+         "fixed_inner": draw(st.lists(st.integers(0, 63), max_size=1)),
+         "mode": draw(st.sampled_from(MODES))}
+        for _ in range(draw(st.sampled_from([0, 0, 1, 2])))
+    ]
+    return {"fixed": fixed, "fixed_inner": inner, "mode": mode, "more": more}
+
+
+MODES = ["index", "position", "both", "position-array", "both-reversed"]
+
+
+def resolve_calls(case, interior: List[int], modulo=None) -> List[list]:
+    """the sequence of fixing calls as [mode, point ids]"""
+    out = []
+    for call in [case, *case.get("more", [])]:
+        ids = call["fixed"] if modulo is None else sorted({f % modulo for f in call["fixed"]})
+        out.append([call["mode"], resolve_fixed(ids, call.get("fixed_inner", []), interior)])
+    return out
+
+
+def union(calls) -> List[int]:
+    return sorted(set(itertools.chain.from_iterable(ids for _, ids in calls)))
 
 
 def resolve_fixed(anywhere: List[int], selectors: List[int], interior: List[int]) -> List[int]:
@@ -168,6 +192,7 @@ def grid_case(draw, regular: bool = False):
     case["n"] = 200 if regular else draw(_iters)
     if regular:
         case["regular"] = True
+        case["more"] = []
     return case
 
 
@@ -216,6 +241,9 @@ def mesh_case(draw, regular: bool = False):
     case["n"] = 200 if regular else draw(_iters)
     if regular:
         case["regular"] = True
+        case["more"] = []
+        if ninner == 1:
+            case["fixed_inner"] = []  # keep the only interior point free
     return case
 
 
@@ -300,7 +328,8 @@ def sketch_input(case):
     lib = {base: k for k, base in enumerate(order)}
     quads = [[lib[i] for i in q] for q in quads]
     topo = Topo(quads, len(order))
-    fixed = resolve_fixed(sorted({f % len(order) for f in case["fixed"]}), case.get("fixed_inner", []), topo.interior)
+    calls = resolve_calls(case, topo.interior, len(order))
+    fixed = union(calls)
     lattice = np.column_stack([pts, np.zeros(len(pts))])
     if case["amp"] and case["jit"]:
         jit = np.array(case["jit"]).reshape(-1, 2)
@@ -313,7 +342,7 @@ def sketch_input(case):
     if case["tilt"]:
         R = rodrigues(case["tilt"]["axis"], case["tilt"]["angle"])
         p3, lattice = p3 @ R.T, lattice @ R.T
-    return np.array(p3[order]), quads, lattice[order], fixed
+    return np.array(p3[order]), quads, lattice[order], calls
 
 
 def mesh_input(case):
@@ -336,7 +365,8 @@ def mesh_input(case):
                 if 0 < i < dims[0] and 0 < j < dims[1] and 0 < k < dims[2]:
                     inner.append(nid(i, j, k))
     lattice = pos.copy()
-    fixed = resolve_fixed(case["fixed"], case.get("fixed_inner", []), inner)
+    calls = resolve_calls(case, inner)
+    fixed = union(calls)
     if case["amp"] and case["jit"]:
         jit = np.array(case["jit"]).reshape(-1, 3)
         wmin = min(min(w) for w in case["widths"])
@@ -352,21 +382,26 @@ def mesh_input(case):
         nodes = [nid(i + dx, j + dy, k + dz) for dx, dy, dz in CANON]
         perm = ROT[case["rots"][c]]
         cells.append([nodes[perm[m]] for m in range(8)])
-    return pos, cells, lattice, fixed
+    return pos, cells, lattice, calls
 
 
 # --------------------------------------------------------------------------------------------------
 # running the library
 
 
-def _fix(smoother, case, fixed_lib_ids, initial_lib):
-    mode = case["mode"]
-    if mode in ("index", "both"):
-        smoother.fix_indexes(list(fixed_lib_ids))
-    if mode in ("position", "both"):
-        smoother.fix_points([initial_lib[i].tolist() for i in fixed_lib_ids])
-    if mode == "position-array":
-        smoother.fix_points(np.array([initial_lib[i] for i in fixed_lib_ids]).reshape(-1, 3))
+def _fix(smoother, calls, initial_lib, to_lib=None):
+    """replays the drawn sequence of fix_indexes / fix_points calls"""
+    for mode, ids in calls:
+        ids = list(ids) if to_lib is None else [to_lib[p] for p in ids if p in to_lib]
+        by_position = [initial_lib[i].tolist() for i in ids]
+        if mode in ("index", "both"):
+            smoother.fix_indexes(list(ids))
+        if mode in ("position", "both", "both-reversed"):
+            smoother.fix_points(by_position)
+        if mode == "both-reversed":
+            smoother.fix_indexes(list(ids))
+        if mode == "position-array":
+            smoother.fix_points(np.array(by_position).reshape(-1, 3))
 
 
 def run_sketch(case, points, quads, fixed, n, facts):
@@ -377,7 +412,7 @@ def run_sketch(case, points, quads, fixed, n, facts):
         else:
             sketch = MappedSketch([p.tolist() for p in points], [list(q) for q in quads])
         smoother = SketchSmoother(sketch)
-        _fix(smoother, case, fixed, points)
+        _fix(smoother, fixed, points)
         if n > 0:
             smoother.smooth(n)
         return np.array(sketch.positions, dtype=float), sketch, smoother
@@ -407,8 +442,7 @@ def run_mesh(case, pos, cells, fixed, n, facts):
         return None
     try:
         smoother = MeshSmoother(mesh)
-        fixed_vertices = [node_to_vertex[p] for p in fixed if p in node_to_vertex]
-        _fix(smoother, case, fixed_vertices, vpos)
+        _fix(smoother, fixed, vpos, node_to_vertex)
         if n > 0:
             smoother.smooth(n)
         after = np.array([v.position for v in mesh.vertices], dtype=float)
@@ -485,8 +519,9 @@ def needed_iterations(free, topo) -> int:
     return max(1, math.ceil(math.log(1e-13) / math.log(rho)))
 
 
-def common(case, topo: Topo, fixed_ids, initial, after, before, size, extent, lattice, ctx: Ctx, facts):
-    fixed = {p for p in fixed_ids if topo.nbrs.get(p)}
+def common(case, topo: Topo, calls, initial, after, before, size, extent, lattice, ctx: Ctx, facts):
+    fixed = {p for p in union(calls) if topo.nbrs.get(p)}
+    facts["calls"] = "+".join(mode for mode, _ in calls)
     free = [p for p in topo.interior if p not in fixed]
     check_static(initial, after, topo, fixed, facts)
     check_sweep(before, after, topo, free, extent, facts)
@@ -509,6 +544,10 @@ def common(case, topo: Topo, fixed_ids, initial, after, before, size, extent, la
         ctx.label("irregular-valence")
     if fixed - topo.boundary:
         ctx.label("fixed-interior:" + case["mode"])
+    inner_sets = [set(ids) - topo.boundary for _, ids in calls]
+    ctx.label(f"fixing-calls={len(calls)}")
+    if any(inner_sets[i] - inner_sets[j] for j in range(len(calls)) for i in range(j)):
+        ctx.label("later-call-omits-earlier-interior-point")
     moved = [p for p in free if not np.array_equal(initial[p], after[p])]
     ctx.label("some-point-moved" if moved else "nothing-moved")
     ctx.info = {"need": need, "free": len(free)}
@@ -548,8 +587,7 @@ def disk_input(case):
     points = np.array(sketch.positions, dtype=float)
     quads = [[int(i) for i in q] for q in sketch.indexes]
     topo = Topo(quads, len(points))
-    fixed = resolve_fixed(sorted({f % len(points) for f in case["fixed"]}), case["fixed_inner"], topo.interior)
-    return points, quads, points.copy(), fixed
+    return points, quads, points.copy(), resolve_calls(case, topo.interior, len(points))
 
 
 def check_sketch(case, ctx: Ctx) -> None:
